@@ -11,15 +11,16 @@ Variable over1 over2 : Z -> V -> V.
 Variable has_prot : Z -> bool.
 Variable mf : Z -> V.
 Variable sf : Z -> V.
+Variable pre : bool.
 Variable reqs : Z -> req.
 
 Notation full := (full V base over1 over2 has_prot).
 Notation run := (run V base over1 over2 has_prot mf sf).
-Notation init := (init V base).
+Notation init := (init V base pre).
 Notation alone := (alone V base over1 over2 has_prot mf sf).
-Notation inv := (inv V base over1 over2 has_prot mf sf reqs).
-Notation tinv := (tinv V base over1 over2 has_prot mf sf reqs).
-Notation reachable_inv := (reachable_inv V base over1 over2 has_prot mf sf reqs).
+Notation inv := (inv V base over1 over2 has_prot mf sf pre reqs).
+Notation tinv := (tinv V base over1 over2 has_prot mf sf pre reqs).
+Notation reachable_inv := (reachable_inv V base over1 over2 has_prot mf sf pre reqs).
 
 Definition reach (s : state V) : Prop :=
   exists sched, run Repaired reqs sched (init Repaired reqs) = Some s.
@@ -29,6 +30,13 @@ Proof. intros s [sched H]. eapply reachable_inv; eauto. Qed.
 
 Lemma built_once : forall s, reach s -> b_gen s <= 1.
 Proof. intros s H. destruct (reach_inv s H) as [(G & _) _]. lia. Qed.
+
+(** the WSDL built at start-up is never built again *)
+Lemma prebuilt_never_rebuilt : forall s, reach s -> pre = true -> b_gen s = 1 /\ b_wsdl s = Some 0.
+Proof.
+  intros s H Hp. destruct (reach_inv s H) as [(_ & _ & _ & _ & _ & _ & _ & G) _].
+  destruct (G Hp). auto.
+Qed.
 
 Lemma no_interference : forall s t, reach s -> tpc (thr s t) = Done -> out (thr s t) = alone (reqs t).
 Proof.
@@ -73,7 +81,7 @@ Lemma sort_transparent : forall s, reach s ->
   (forall t ks, reqs t = RSort ks -> tpc (thr s t) = Done -> out (thr s t) = Some (PVals (map sf ks))).
 Proof.
   intros s H. split.
-  - destruct (reach_inv s H) as [(_ & _ & _ & _ & _ & _ & G) _]. exact G.
+  - destruct (reach_inv s H) as [(_ & _ & _ & _ & _ & _ & G & _) _]. exact G.
   - intros t ks Hq Hd. rewrite (no_interference s t H Hd), Hq. reflexivity.
 Qed.
 
@@ -197,7 +205,7 @@ End Thm.
 Definition wsdl_witness : list Z :=
   [0;0;0;0;0;0;0; 1;1; 0;0;0;0; 1;1;1;1;1;1;1;1;1].
 Lemma pinned_wsdl_refuted :
-  exists sched s, crun Pinned (fun _ => RWsdl) sched (cinit Pinned (fun _ => RWsdl)) = Some s /\
+  exists sched s, crun Pinned (fun _ => RWsdl) sched (cinit false Pinned (fun _ => RWsdl)) = Some s /\
     b_gen s = 2 /\ tpc (thr s 0) = Done /\ tpc (thr s 1) = Done /\
     out (thr s 0) = Some (PWsdl (Some 0)) /\ out (thr s 1) = Some (PWsdl (Some 1)) /\
     app_wsdl s = Some 1.
@@ -207,7 +215,7 @@ Proof. exists wsdl_witness. eexists. vm_compute. repeat split. Qed.
     thread 0's store of the base dictionary and its updates *)
 Definition attrs_reqs (t : Z) : req := if (t =? 0) || (t =? 1) then RAttrs [1] else RIdle.
 Lemma pinned_attrs_refuted :
-  exists sched s, crun Pinned attrs_reqs sched (cinit Pinned attrs_reqs) = Some s /\
+  exists sched s, crun Pinned attrs_reqs sched (cinit false Pinned attrs_reqs) = Some s /\
     tpc (thr s 1) = Done /\ out (thr s 1) = Some (PVals [10]) /\
     calone (attrs_reqs 1) = Some (PVals [13]).
 Proof. exists [0;0;1;1]. eexists. vm_compute. repeat split. Qed.
@@ -219,10 +227,10 @@ Definition errlog_reqs (other : req) (t : Z) : req :=
   if t =? 0 then RValidate false 7 else if t =? 1 then other else RIdle.
 Lemma pinned_errlog_refuted :
   (exists sched s, let rq := errlog_reqs (RValidate true 0) in
-     crun Pinned rq sched (cinit Pinned rq) = Some s /\
+     crun Pinned rq sched (cinit false Pinned rq) = Some s /\
      tpc (thr s 0) = Done /\ out (thr s 0) = Some (PFault None) /\ calone (rq 0) = Some (PFault (Some 7))) /\
   (exists sched s, let rq := errlog_reqs (RValidate false 8) in
-     crun Pinned rq sched (cinit Pinned rq) = Some s /\
+     crun Pinned rq sched (cinit false Pinned rq) = Some s /\
      tpc (thr s 0) = Done /\ out (thr s 0) = Some (PFault (Some 8)) /\ calone (rq 0) = Some (PFault (Some 7))).
 Proof.
   split.
